@@ -7,6 +7,23 @@ ROOT = os.path.dirname(os.path.dirname(os.path.abspath(__file__)))
 
 ALL = [f"C{i:02d}" for i in range(1, 21)]
 
+# monitors added in the wave-17 session (appended to the technique text)
+WAVE17 = {
+    "C01": "; block-seam monitor (kept count steered onto multiples of 8192: additivity of the sums over a split); every object of a scan integrated again after all were used",
+    "C03": "; the same events re-thrown in another order on the used object; two geometry objects thrown first and integrated afterwards against objects used on their own",
+    "C04": "; memory-layout monitor (C / Fortran / transposed / strided / read-only 2-d batches against the flat batch)",
+    "C05": "; every returned array is held until after the next call on the object and compared byte for byte",
+    "C07": "; dtype monitor casts the kinematic arrays, the random numbers, and both",
+    "C08": "; the same argument arrays edited in place between consecutive calls on one object",
+    "C12": "; indices within 1e-12..1e-6 of 1 on both sides judged at a flat 1e-9 decades against the 60-digit image",
+    "C13": "; integrals as observers of the thrown geometry (arrays and instants unchanged after optical / radio integrals with real decay lengths); observation windows containing a UTC leap second; positions for narrow-dtype distance arrays",
+    "C14": "; every empty-run case with and without progress messages; narrow-cone configurations in the channel-isolation runs",
+    "C15": "; every unit field offered texts that a field of another dimension has just accepted (rejection must not depend on parse history)",
+    "C17": "; with writing disabled, failures injected at the entry of and inside stages must leave nothing on disk; staged runs named by a relative path from three working directories in one process",
+    "C18": "; integer axes over the whole range of their dtype, half-precision-axis variants, nodes given as numpy scalars and as Python numbers; slice / edit in place / slice history; float16 fixed witnesses",
+    "C19": "; memory-layout monitor (10 layouts, both directions) and re-used-buffer history (same array object refilled in place between consecutive calls)",
+}
+
 # id -> (level category, technique, level text, level note, design section)
 CHECKS = {
     "C10": (
@@ -165,6 +182,7 @@ def main():
         if pid not in CHECKS:
             continue
         cat, tech, text, note, ref = CHECKS[pid]
+        tech = tech + WAVE17.get(pid, "") + "; sys.monitoring reach table of the anchored source files (functions entered, lines never executed) recorded in the evidence"
         checks.append(
             {
                 "property_id": pid,
